@@ -57,8 +57,8 @@ theorem constFam_ok {M : Scm} {G : MG Name} (hM : M.Compatible G) (hG : G.WF) (h
   ⟨fun _ => rfl, hM, fun _ _ => hM, fun _ _ => rfl, hG, hr⟩
 
 /-- the target contexts of the single-model families over `G` -/
-def TargetClass (G : MG Name) (hG : G.WF) (hr : G.Ranked) (σ' : Val) : Ctx → Prop := fun ctx =>
-  ∃ (M : Scm) (hM : M.Compatible G), ctx = famCtx (constFam M G) G [targetPop] σ' (constFam_ok hM hG hr _)
+def TargetClass (G : MG Name) (hG : G.WF) (hr : G.Ranked) (pops : List Name) (σ' : Val) : Ctx → Prop := fun ctx =>
+  ∃ (M : Scm) (hM : M.Compatible G), ctx = famCtx (constFam M G) G pops σ' (constFam_ok hM hG hr _)
 
 /-- the specification of the top-level query is the interventional distribution -/
 theorem spec_eq_doProb (M : Scm) (G : MG Name) (hnoT : ∀ v ∈ G.nodes, isTnode v = false) (X Y : List Name) (σ : Val) :
@@ -86,22 +86,23 @@ theorem trso_sound_no_surrogate_core (sep : SepTest) (G : MG Name) (hG : G.WF) (
   have hsmall' : ∀ v ∈ G.nodes, v < 200 := fun v hv => Nat.lt_trans (hsmall v hv) (by decide)
   have hnoT : ∀ v ∈ G.nodes, isTnode v = false := noT_of_small hsmall'
   set q := initialQuery G Y X graphs interventions with hqdef
+  let pops : List Name := targetPop :: graphs.map (fun p => p.1)
   -- the class, its coin member, the initial invariant
-  have hcoinMem : TargetClass G hG hr σ' (famCtx (constFam coinScm G) G [targetPop] σ'
+  have hcoinMem : TargetClass G hG hr pops σ' (famCtx (constFam coinScm G) G pops σ'
       (constFam_ok (coinScm_compatible G) hG hr _)) := ⟨coinScm, coinScm_compatible G, rfl⟩
-  have hcoin : Coin (famCtx (constFam coinScm G) G [targetPop] σ' (constFam_ok (coinScm_compatible G) hG hr _)) :=
-    coin_famCtx G hG hr [targetPop] σ'
+  have hcoin : Coin (famCtx (constFam coinScm G) G pops σ' (constFam_ok (coinScm_compatible G) hG hr _)) :=
+    coin_famCtx G hG hr pops σ'
   have hsub : ∀ p ∈ graphs, RSub G p.2 := by
     intro p hp
     rcases (surrogateToTransport_spec hG hv hg).2 p hp with rfl | ⟨_, ns, hns, hp2⟩
     · exact rsub_self
     · rw [hp2]; exact rsub_ctd hsmall hns
-  have hI : Inv (TargetClass G hG hr σ') q G := by
+  have hI : Inv (TargetClass G hG hr pops σ') q G := by
     rintro ctx ⟨M', hM', rfl⟩
-    exact famCtx_initial σ' (constFam_ok hM' hG hr _) (by simp) rfl hnoT Y X graphs interventions hsub
-      (fun p _ v hne => absurd rfl hne)
+    exact famCtx_initial σ' (constFam_ok hM' hG hr _) (List.mem_cons_self) rfl hnoT Y X graphs interventions hsub
+      (fun p _ v hne => absurd rfl hne) (fun p hp => List.mem_cons_of_mem _ (List.mem_map_of_mem hp))
   have hK : KNoSurr q := ⟨fun p hp => hZ p hp, rfl⟩
-  obtain ⟨hgood, _, hden⟩ := trsoF_sound_engine sep (TargetClass G hG hr σ') hcoinMem hcoin KNoSurr kNoSurr_stable _
+  obtain ⟨hgood, _, hden⟩ := trsoF_sound_engine sep (TargetClass G hG hr pops σ') hcoinMem hcoin KNoSurr kNoSurr_stable _
     (h67_noSurr sep _ _) q.fuel q G hinv hI hK e h _ ⟨M, hM, rfl⟩
   rw [show M.env G = (constFam M G).env from rfl, den_eq_denL_of_clean _ σ' hgood.1 σ]
   exact (hden σ).trans (spec_eq_doProb M G hnoT X Y σ)
